@@ -72,6 +72,8 @@ def okCond (f : FP) : Cond → Bool
   | .offLtStart _ k => f.W k
   | .offGtEnd _ k => f.W k
   | .tagAtEq _ w => okWE f w
+  | .wordBit k _ => f.W k
+  | .weGt a b => okWE f a && okWE f b
   | .not c => okCond f c
   | .and a b => okCond f a && okCond f b
   | .or a b => okCond f a && okCond f b
@@ -82,6 +84,8 @@ def okVE (f : FP) : VE → Bool
   | .capAt _ w => okWE f w
   | .argAt k => f.W k
   | .replaceOf k _ => f.C k
+  | .s64Of _ w => okWE f w
+  | .numSigned _ w => okWE f w
   | _ => true
 
 def okStmt (f : FP) : Stmt → Bool
@@ -102,6 +106,7 @@ def okProg (f : FP) : Prog → Bool
   | .retPlus _ w => okWE f w
   | .loop c body rest => okCond f c && okProg f body && okProg f rest
   | .downLoop _ _ body rest => okProg f body && okProg f rest
+  | .downLoopW _ w body rest => okWE f w && okProg f body && okProg f rest
   | _ => true
 
 section
@@ -137,6 +142,8 @@ theorem evalCond_congr (E : Env) (L : Loc) (s : St) : ∀ {c : Cond}, okCond f c
   | offLtStart x k => intro hc; simp only [evalCond, h.word _ hc]
   | offGtEnd x k => intro hc; simp only [evalCond, h.word _ hc]
   | tagAtEq n w => intro hc; simp only [evalCond, evalWE_congr h hc]
+  | wordBit kk bit => intro hc; simp only [evalCond, h.word _ hc]
+  | weGt a b => intro hc; simp only [okCond, Bool.and_eq_true] at hc; simp only [evalCond, evalWE_congr h hc.1, evalWE_congr h hc.2]
   | _ => intro _; rfl
 
 theorem evalVE_congr (E : Env) (L : Loc) (s : St) {e : VE} (he : okVE f e = true) : evalVE E O L s e = evalVE E O' L s e := by
@@ -217,6 +224,18 @@ theorem execL_congr (E : Env) (k : OK ρ) (fuel : Nat) :
       funext fun L => funext fun s => ihb hp.1 L s
     simp only [execL, hb]
     cases downN i (fun L s => execL E k O' fuel body L s) (evalNE L s bound) L s with
+    | error e => rfl
+    | ok x =>
+      cases x with
+      | cont L' s' => simp only [bind, Except.bind]; exact ihr hp.2 _ _
+      | _ => rfl
+  | downLoopW i bound body rest ihb ihr =>
+    intro hp L s
+    simp only [okProg, Bool.and_eq_true] at hp
+    have hb : (fun L s => execL E k O fuel body L s) = (fun L s => execL E k O' fuel body L s) :=
+      funext fun L => funext fun s => ihb hp.1.2 L s
+    simp only [execL, hb, evalWE_congr h hp.1.1]
+    cases downN i (fun L s => execL E k O' fuel body L s) (evalWE O' bound) L s with
     | error e => rfl
     | ok x =>
       cases x with
